@@ -1212,6 +1212,38 @@ func legC08Wellformed(c *Ctx) {
 			}
 		}
 	}
+	// balancing groups on every open/close sequence up to a bound (captures that are references to earlier
+	// captures, resolved when the match is tidied: sibling pairs nested in an outer pair read through two of them)
+	for _, bp := range []struct{ pat, alpha string }{
+		{`(?:(?<o>a)|(?<c-o>b))+`, "ab"},
+		{`(?:(?<o>a)|(?<-o>b))+`, "ab"},
+		{`^(?:(?<o>\()|(?<c-o>\))|[^()])*$`, "()é"},
+		{`(?:(?<o>a)|(?<c-o>b)|(?<d-c>x))+`, "abx"},
+		{`(?:(?<o>a)|(?<c-o>b))+\k<c>?`, "ab"},
+	} {
+		var inputs []string
+		al := []rune(bp.alpha)
+		maxLen := 7
+		if len(al) > 2 {
+			maxLen = 5
+		}
+		var rec func(cur []rune)
+		rec = func(cur []rune) {
+			if len(cur) > 0 {
+				inputs = append(inputs, string(cur))
+			}
+			if len(cur) == maxLen {
+				return
+			}
+			for _, ch := range al {
+				rec(append(append([]rune{}, cur...), ch))
+			}
+		}
+		rec(nil)
+		for _, o := range []regexp2.RegexOptions{0, regexp2.RightToLeft} {
+			run("balancing", bp.pat, o, inputs)
+		}
+	}
 	// random patterns
 	n := c.N(40000, 400000)
 	for i := 0; i < n; i++ {
